@@ -52,6 +52,7 @@ func init() {
 		X.httpReqs = append(X.httpReqs, req)
 		event("http.Do")
 		if X.choose(2) == 1 {
+			event("http.Do:error")
 			errorsPkg := fr.i.prog.ImportedPackage("errors")
 			et := errorsPkg.Type("errorString").Type()
 			cell := value(structure{"stub: transport error"})
@@ -62,6 +63,7 @@ func init() {
 		resp := zero(rt).(structure)
 		st := rt.Underlying().(*types.Struct)
 		code := mkScalar(X.pinOr(X.fresh("http.status", BV(64))), types.Int)
+		X.lastHTTPStatus = code
 		for k := 0; k < st.NumFields(); k++ {
 			switch st.Field(k).Name() {
 			case "StatusCode":
@@ -73,11 +75,24 @@ func init() {
 		cell := value(resp)
 		return tuple{&cell, iface{}}
 	}
+	symExternals[rtPkg+"LastHTTPStatus"] = func(fr *frame, args []value) value {
+		if X.lastHTTPStatus == nil {
+			return 0
+		}
+		return X.lastHTTPStatus
+	}
 	symExternals[rtPkg+"HTTPRequests"] = func(fr *frame, args []value) value {
 		out := make([]value, len(X.httpReqs))
 		for i, r := range X.httpReqs {
 			out[i] = r
 		}
 		return out
+	}
+}
+
+func init() {
+	// io.Discard's ReadFrom drains through a sync.Pool buffer; nothing a harness observes depends on it.
+	symExternals["(io.discard).ReadFrom"] = func(fr *frame, args []value) value {
+		return tuple{int64(0), iface{}}
 	}
 }
